@@ -111,7 +111,7 @@ func c03Run(c c29Case) (tr c03Trace, res c29Result) {
 			tr.Final[3] = append(tr.Final[3], fmt.Sprintf("%s incoming=%d outgoing=%d", p.Name(), p.NumIncoming(), p.NumOutgoing()))
 		}
 		for _, a := range b.agents {
-			tr.Final[4] = append(tr.Final[4], fmt.Sprintf("%s ticks=%d unsent=%d blocked=%d received=%d", a.Name(), a.ticks, len(a.queue), a.blocked, a.received))
+			tr.Final[4] = append(tr.Final[4], fmt.Sprintf("%s ticks=%d unsent=%d blocked=%d received=%d", a.Name(), a.State.Ticks, a.unsent(), a.State.Blocked, a.State.Received))
 		}
 		tr.Final[5] = append(tr.Final[5], fmt.Sprintf("now=%d nextID=%d timedOut=%v", reg.engine.CurrentTime(), timing.GetIDGeneratorNextID(), res.timedOut))
 	}
@@ -219,6 +219,9 @@ const c03ChildCases = 20
 type c03Job struct {
 	Case c29Case `json:"case"`
 	Dump bool    `json:"dump"` // return the full element lists, not only digests
+	// Resume != nil: not a C03 job but the resume half of C29's checkpoint leg
+	// (answered with a "C29RESULT <json>" line).
+	Resume *c29ResumeJob `json:"resume,omitempty"`
 }
 
 // c03ChildMain is called from TestMain: with VERIF_CHILD=c03-worker this
@@ -237,15 +240,23 @@ func c03ChildMain() {
 				fmt.Fprintln(os.Stderr, jerr)
 				os.Exit(3)
 			}
-			tr, _ := c03Run(j.Case)
-			if !j.Dump {
-				tr.Events, tr.Msgs, tr.Final = nil, nil, nil
+			if j.Resume != nil {
+				b, _ := json.Marshal(c29ResumeRun(*j.Resume))
+				out.WriteString("C29RESULT ")
+				out.Write(b)
+				out.WriteByte('\n')
+				out.Flush()
+			} else {
+				tr, _ := c03Run(j.Case)
+				if !j.Dump {
+					tr.Events, tr.Msgs, tr.Final = nil, nil, nil
+				}
+				b, _ := json.Marshal(tr)
+				out.WriteString("C03RESULT ")
+				out.Write(b)
+				out.WriteByte('\n')
+				out.Flush()
 			}
-			b, _ := json.Marshal(tr)
-			out.WriteString("C03RESULT ")
-			out.Write(b)
-			out.WriteByte('\n')
-			out.Flush()
 		}
 		if err != nil {
 			os.Exit(0)
@@ -254,11 +265,12 @@ func c03ChildMain() {
 }
 
 type c03Worker struct {
-	cmd    *exec.Cmd
-	stdin  io.WriteCloser
-	out    *bufio.Reader
-	served int
-	spawns int
+	cmd        *exec.Cmd
+	stdin      io.WriteCloser
+	out        *bufio.Reader
+	served     int
+	spawns     int
+	perProcess int // jobs served by one process (0 = c03ChildCases)
 }
 
 func (w *c03Worker) stop() {
@@ -292,26 +304,40 @@ func (w *c03Worker) start() error {
 
 // ask runs the case in the worker process (a fresh one every c03ChildCases jobs).
 func (w *c03Worker) ask(c c29Case, dump bool) (c03Trace, error) {
-	if w.cmd == nil || w.served >= c03ChildCases {
+	var tr c03Trace
+	raw, err := w.askRaw(c03Job{Case: c, Dump: dump}, "C03RESULT ")
+	if err != nil {
+		return tr, err
+	}
+	return tr, json.Unmarshal(raw, &tr)
+}
+
+// askRaw sends one job and returns the JSON that follows prefix on the
+// worker's result line.
+func (w *c03Worker) askRaw(j c03Job, prefix string) ([]byte, error) {
+	limit := w.perProcess
+	if limit <= 0 {
+		limit = c03ChildCases
+	}
+	if w.cmd == nil || w.served >= limit {
 		if err := w.start(); err != nil {
-			return c03Trace{}, err
+			return nil, err
 		}
 	}
 	w.served++
-	b, _ := json.Marshal(c03Job{Case: c, Dump: dump})
+	b, _ := json.Marshal(j)
 	if _, err := w.stdin.Write(append(b, '\n')); err != nil {
 		w.stop()
-		return c03Trace{}, fmt.Errorf("child worker: %v", err)
+		return nil, fmt.Errorf("child worker: %v", err)
 	}
 	for {
 		line, err := w.out.ReadBytes('\n')
-		if bytes.HasPrefix(line, []byte("C03RESULT ")) {
-			var tr c03Trace
-			return tr, json.Unmarshal(line[len("C03RESULT "):], &tr)
+		if bytes.HasPrefix(line, []byte(prefix)) {
+			return line[len(prefix):], nil
 		}
 		if err != nil {
 			w.stop()
-			return c03Trace{}, fmt.Errorf("child worker ended without a result: %v", err)
+			return nil, fmt.Errorf("child worker ended without a result: %v", err)
 		}
 		// anything else the code under test printed is skipped
 	}
